@@ -47,21 +47,37 @@ THEOREMS = [
     ('c05_model_check_implies_spec_check',
      'forall c : case, model_check c = true -> spec_check c = true'),
 ]
-RULE = ("histories of 0-70 calls on 0-24 elements over several live copies: un / par / check / size / reset (growing and "
-        "shrinking) / clone, random and adversarial union orders (binomial trees joined root to root, chains in both "
-        "directions, stars), queries biased to deep elements, a few histories ending in an out-of-range call (panic); "
-        "non-trivial = at least 3 joining unions and a lookup afterwards")
-TRUSTED = ["executor harness/crates/c05 (drives rlib_dsu::DSU, prints return values and the arrays read through verif_raw)",
-           "checks/c05.py (history generator, Coq term printer)",
+RULE = ("histories of 0-160 calls on 0-65 elements over up to 7 live copies: un / par / check / size / reset (growing, "
+        "shrinking, from and to 0, 300+ resets of one value) / clone / clone_from (over a value of another length and "
+        "history; must equal a clone), random and adversarial union orders (binomial trees joined root to root, chains in "
+        "both directions, stars) on every size up to 24 and around 32 and 64, continued by: lookups of the deepest "
+        "element by every kind of call, clone + lookups on both, reset + second build, clone_from, several copies; "
+        "out-of-range calls of every kind and argument shape ((bad,bad) equal / distinct, (good,bad), (bad,good); bad = "
+        "len+0..7, 2*len, 2^k and 2^k+good for k = 8,16,31,32,63, 2^32-1, 2^63-1, 2^64-2, 2^64-1) on fresh values, "
+        "after a shrinking reset, on clones and on uncompressed deep forests: the call must panic, the history goes on "
+        "and the arrays it left behind are compared (un / check have compressed the path of an in-range first "
+        "argument); executor cross-checks: Debug renderings after reset = those of new(n), of a clone / clone_from "
+        "target = those of the source; non-trivial = at least 3 joining unions on a copy and a lookup on it afterwards")
+TRUSTED = ["executor harness/crates/c05 (drives rlib_dsu::DSU, prints return values and the arrays read through verif_raw; "
+           "catches the unwind of a panicking call and goes on; compares Debug renderings)",
+           "checks/c05.py (history generator, Coq term printer; element indices above every element count of the history "
+           "are written into the Coq term as min(index, 4095): the executor receives the real value)",
            "hook rlib_dsu::DSU::verif_raw (cargo feature verif): read-only view of p and sz"]
 ASSUMPTIONS = ["Vec<usize> modelled as list nat, usize arithmetic as nat (sizes are bounded by the element count, no overflow)",
-               "a panic ends the history (the partially updated value is not observed afterwards)",
+               "the value a panicking call leaves behind is modelled by panic_state (Model.v): un / check have completed "
+               "the find of their first argument when it is in range, every other panicking call has written nothing - "
+               "the only panic reachable from a reachable state is the bounds check of the first access of a find "
+               "(c05_panic_iff_out_of_range)",
+               "reset(n) with n so large that the allocation fails is outside the model",
                "the recursion of par is modelled with fuel = number of elements + 1; the theorems exclude running out of fuel "
                "(c05_no_fuel_exhaustion, c05_history_no_fuel) and bound the recursion depth by log2(class size) + 1 frames "
                "(c05_stack_depth, c05_depth_log)",
-               "the stack size of the real process is not modelled: the claim is the frame count"]
+               "the stack size of the real process is not modelled: the claim is the frame count (the implementation-only "
+               "search runs its deep lookups on a thread with a 256 KiB stack)"]
 
-OPS = {"u": 2, "k": 2, "p": 1, "s": 1, "r": 1, "c": 0}
+OPS = {"u": 2, "k": 2, "p": 1, "s": 1, "r": 1, "c": 0, "f": 2}
+ELEM_OPS = ("u", "k", "p", "s")          # ops whose arguments are element indices
+U64 = 1 << 64
 
 
 # ----------------------------------------------------------------------------- executor / Coq printing
@@ -73,7 +89,7 @@ def harness_line(c):
 
 
 def parse_obs(obs):
-    """-> (list of (ret, snap|None), finals|None); ret in 'T','F',('N',k),'U','P'"""
+    """-> (list of (ret, snap|None), finals|None); ret in 'T','F','N<k>','U','P','X...'"""
     t = obs.split()
     i, out, finals = 0, [], None
 
@@ -113,14 +129,25 @@ def snap_term(a):
     return "(%s,%s)" % (nl(a[0]), nl(a[1]))
 
 
-def op_term(o):
+def index_cap(c):
+    """Element indices are passed to the executor as they are (up to 2^64-1) but written into the Coq term as
+    min(index, cap) with cap above every element count that occurs in the history: the model converts indices to
+    unary numbers, and an index at or above the element count is out of range whatever its value."""
+    return max([4095, c["n"]] + [o[2] for o in c["ops"] if o[0] == "r"] + [o[3] - 1 for o in c["ops"] if o[0] == "f"])
+
+
+def op_term(o, cap):
     k = o[0]
+    if k == "f":       # a copy made through clone_from must be indistinguishable from a clone of the source
+        return "NClone %s" % num(o[1])
     name = {"u": "NUn", "k": "NCheck", "p": "NPar", "s": "NSize", "r": "NReset", "c": "NClone"}[k]
-    return "%s %s" % (name, " ".join(num(x) for x in o[1:]))
+    args = [min(x, cap) for x in o[2:]] if k in ELEM_OPS else o[2:]
+    return "%s %s" % (name, " ".join(num(x) for x in [o[1]] + list(args)))
 
 
 def coq_term(c, obs, profile):
     rets, finals = parse_obs(obs)
+    cap = index_cap(c)
     os_ = []
     for tok, sn in rets:
         if tok == "T":
@@ -131,23 +158,26 @@ def coq_term(c, obs, profile):
             r = "OU"
         elif tok == "P":
             r = "OP"
+        elif tok.startswith("X"):
+            r = "OX"
         else:
             r = "ON %s" % num(tok[1:])
         os_.append("(%s,%s)" % (r, "None" if sn is None else "Some %s" % snap_term(sn)))
     return "(mkcase %s [%s] [%s] [%s])" % (
-        num(c["n"]), ";".join(op_term(o) for o in c["ops"]), ";".join(os_),
+        num(c["n"]), ";".join(op_term(o, cap) for o in c["ops"]), ";".join(os_),
         ";".join(snap_term(a) for a in (finals or [])))
 
 
 def nontrivial(c, obs):
     rets, _ = parse_obs(obs)
-    joins, after = 0, False
+    joins, after = {}, False
     for o, (tok, _) in zip(c["ops"], rets):
+        cp = o[1]
         if o[0] == "u" and tok == "T":
-            joins += 1
+            joins[cp] = joins.get(cp, 0) + 1
         elif o[0] == "r":
-            joins = 0
-        elif joins >= 3 and o[0] in ("k", "p", "s"):
+            joins[cp] = 0
+        elif joins.get(cp, 0) >= 3 and o[0] in ("k", "p", "s") and tok != "P":
             after = True
     return after
 
@@ -155,76 +185,171 @@ def nontrivial(c, obs):
 def classify(c, obs):
     kinds = {o[0] for o in c["ops"]}
     n = c["n"]
-    size = "n0" if n == 0 else ("n1-4" if n <= 4 else ("n5-12" if n <= 12 else "n13-24"))
+    size = "n0" if n == 0 else ("n1-4" if n <= 4 else ("n5-12" if n <= 12 else ("n13-24" if n <= 24 else "n25-65")))
     tags = [c.get("fam", "random"), size]
     if "r" in kinds:
         tags.append("reset")
     if "c" in kinds:
         tags.append("clone")
-    if obs.endswith("P"):
-        tags.append("panic")
+    if "f" in kinds:
+        tags.append("clone_from")
+    toks = obs.split()
+    if "P" in toks:
+        tags.append("panic" if toks[toks.index("P") + 1:toks.index("P") + 2] == ["E"] else "panic+continued")
     return "/".join(tags)
 
 
 # ----------------------------------------------------------------------------- generator
-class Sim:
-    """bookkeeping for the generator only (element counts of the live copies, a plain labelling)"""
+class PD:
+    """the generator's own forest (bookkeeping only: which elements are deep, which are roots; never an oracle)"""
 
     def __init__(self, n):
-        self.n = [n]
-        self.lab = [list(range(n))]
+        self.p = list(range(n))
+        self.sz = [1] * n
+
+    def par(self, v):
+        path = []
+        while self.p[v] != v:
+            path.append(v)
+            v = self.p[v]
+        for x in path:
+            self.p[x] = v
+        return v
+
+    def un(self, u, v):
+        u, v = self.par(u), self.par(v)
+        if u == v:
+            return
+        if self.sz[u] > self.sz[v]:
+            u, v = v, u
+        self.sz[v] += self.sz[u]
+        self.p[u] = v
+
+    def depth(self, v):
+        d = 0
+        while self.p[v] != v:
+            v = self.p[v]
+            d += 1
+        return d
+
+    def copy(self):
+        d = PD(0)
+        d.p, d.sz = list(self.p), list(self.sz)
+        return d
 
 
-def gen_random(rng, n, nops, panic_at=None):
-    ns = [n]
-    ops = []
-    for i in range(nops):
-        c = rng.below(len(ns))
-        m = ns[c]
-        k = rng.below(100)
-        if panic_at is not None and i == panic_at:
-            kind = rng.choice(["u", "k", "p", "s"])
-            bad = m + rng.below(3)
-            if OPS[kind] == 2:
-                good = rng.below(m) if m else bad
-                ops.append([kind, c] + ([bad, good] if rng.chance(1, 2) else [good, bad]))
-            else:
-                ops.append([kind, c, bad])
-            break
+class Hist:
+    """a history under construction: the ops and the generator's forests of the live copies"""
+
+    def __init__(self, n, fam):
+        self.n0, self.fam, self.cp, self.ops = n, fam, [PD(n)], []
+
+    def len(self, c):
+        return len(self.cp[c].p)
+
+    def _finds(self, c, args):
+        d = self.cp[c]
+        for a in args:                       # a call stops at its first out-of-range find
+            if a >= len(d.p):
+                return False
+            d.par(a)
+        return True
+
+    def un(self, c, a, b):
+        self.ops.append(["u", c, a, b])
+        if self._finds(c, [a, b]):
+            self.cp[c].un(a, b)
+
+    def check(self, c, a, b):
+        self.ops.append(["k", c, a, b])
+        self._finds(c, [a, b])
+
+    def par(self, c, v):
+        self.ops.append(["p", c, v])
+        self._finds(c, [v])
+
+    def size(self, c, v):
+        self.ops.append(["s", c, v])
+        self._finds(c, [v])
+
+    def reset(self, c, n):
+        self.ops.append(["r", c, n])
+        self.cp[c] = PD(n)
+
+    def clone(self, c):
+        self.ops.append(["c", c])
+        self.cp.append(self.cp[c].copy())
+        return len(self.cp) - 1
+
+    def clone_from(self, c, dst, m):
+        self.ops.append(["f", c, dst, m])
+        self.cp.append(self.cp[c].copy())
+        return len(self.cp) - 1
+
+    def call(self, kind, c, args):
+        {"u": self.un, "k": self.check, "p": self.par, "s": self.size}[kind](c, *args)
+
+    def deepest(self, rng, c):
+        d = self.cp[c]
+        dep = [d.depth(v) for v in range(len(d.p))]
+        mx = max(dep)
+        return rng.choice([v for v in range(len(dep)) if dep[v] == mx])
+
+    def case(self):
+        return {"n": self.n0, "ops": self.ops, "fam": self.fam}
+
+
+def bad_values(rng, m, good):
+    """out-of-range indices for a copy of m elements: just outside, a little outside, the doubled length, and the
+    values that alias an in-range index `good` (or 0 / m-1) after a cast to u8/u16/u32/i32/i64 or after +1 / -1 wraps"""
+    vals = [m, m + 1, m + 2, m + 7, 2 * m + (1 if m == 0 else 0)]
+    for k in (8, 16, 31, 32, 63):
+        vals += [1 << k, (1 << k) + good]
+    vals += [(1 << 32) - 1, (1 << 63) - 1, U64 - 2, U64 - 1, U64 - 1 - good]
+    return [v for v in dict.fromkeys(vals) if m <= v < U64]
+
+
+def panic_call(rng, h, c, kind, shape, bad, good):
+    """one call with an out-of-range argument; shape 0 = (bad, bad) equal, 1 = (bad, bad') distinct, 2 = (good, bad),
+    3 = (bad, good); one-argument calls ignore the shape"""
+    m = h.len(c)
+    if OPS[kind] == 1:
+        h.call(kind, c, [bad])
+        return
+    if m == 0 and shape >= 2:
+        shape -= 2
+    other = bad + 1 if bad + 1 < U64 else bad - 1
+    args = [[bad, bad], [bad, other], [good, bad], [bad, good]][shape]
+    h.call(kind, c, args)
+
+
+def lookups(rng, h, c, k, deep=True):
+    """k calls that look at the deepest element of copy c (or at a random one)"""
+    for _ in range(k):
+        m = h.len(c)
         if m == 0:
-            if k < 50:
-                nn_ = rng.range(0, 8)
-                ops.append(["r", c, nn_])
-                ns[c] = nn_
-            elif len(ns) < 4:
-                ops.append(["c", c])
-                ns.append(m)
-            continue
-        if k < 48:
-            ops.append(["u", c, rng.below(m), rng.below(m)])
-        elif k < 62:
-            ops.append(["k", c, rng.below(m), rng.below(m)])
-        elif k < 77:
-            ops.append(["p", c, rng.below(m)])
-        elif k < 87:
-            ops.append(["s", c, rng.below(m)])
-        elif k < 92:
-            nn_ = rng.choice([rng.range(0, 24), max(0, m - rng.range(1, 3)), min(24, m + rng.range(1, 3)), m])
-            ops.append(["r", c, nn_])
-            ns[c] = nn_
-        elif len(ns) < 4:
-            ops.append(["c", c])
-            ns.append(m)
+            return
+        v = h.deepest(rng, c) if deep else rng.below(m)
+        w = rng.below(m)
+        kind = rng.below(6)
+        if kind == 0:
+            h.par(c, v)
+        elif kind == 1:
+            h.size(c, v)
+        elif kind == 2:
+            h.check(c, v, w)
+        elif kind == 3:
+            h.check(c, w, v)
+        elif kind == 4:
+            h.un(c, v, w)
         else:
-            ops.append(["u", c, rng.below(m), rng.below(m)])
-    return {"n": n, "ops": ops, "fam": "random"}
+            h.un(c, w, v)
 
 
-def gen_binomial(rng, n, rev):
-    """join roots of equal trees pairwise (no find ever compresses), then look at the deepest elements"""
-    ops = []
-    roots = list(range(n))
-    if rng.chance(1, 2):
+def build_binomial(rng, h, c, rev, shuffled):
+    """join roots of equal trees pairwise: no find ever compresses, the depth bound is tight"""
+    roots = list(range(h.len(c)))
+    if shuffled:
         rng.shuffle(roots)
     while len(roots) > 1:
         nxt = []
@@ -232,45 +357,194 @@ def gen_binomial(rng, n, rev):
             a, b = roots[j], roots[j + 1]
             if rev:
                 a, b = b, a
-            ops.append(["u", 0, a, b])
-            nxt.append(b)          # equal sizes: the first argument goes below the second
+            h.un(c, a, b)
+            nxt.append(a if h.cp[c].p[a] == a else b)
         if len(roots) % 2:
             nxt.append(roots[-1])
         roots = nxt
-    tail = []
-    for _ in range(rng.range(1, 6)):
-        k = rng.below(4)
-        v = rng.below(n)
-        tail.append([["p", 0, v], ["s", 0, v], ["k", 0, v, rng.below(n)], ["u", 0, v, rng.below(n)]][k])
-    return {"n": n, "ops": ops + tail, "fam": "binomial"}
 
 
-def gen_chain(rng, n, style):
-    ops = []
+def build_chain(rng, h, c, style):
+    n = h.len(c)
     if style == 0:
         for i in range(n - 1):
-            ops.append(["u", 0, i, i + 1])
+            h.un(c, i, i + 1)
     elif style == 1:
         for i in range(n - 2, -1, -1):
-            ops.append(["u", 0, i + 1, i])
+            h.un(c, i + 1, i)
     elif style == 2:       # star: everything joined to element 0 from alternating sides
         for i in range(1, n):
-            ops.append(["u", 0, 0, i] if i % 2 else ["u", 0, i, 0])
+            if i % 2:
+                h.un(c, 0, i)
+            else:
+                h.un(c, i, 0)
     else:                  # two chains joined at the far ends
-        h = n // 2
-        for i in range(h - 1):
-            ops.append(["u", 0, i, i + 1])
-        for i in range(h, n - 1):
-            ops.append(["u", 0, i + 1, i])
+        hh = n // 2
+        for i in range(hh - 1):
+            h.un(c, i, i + 1)
+        for i in range(hh, n - 1):
+            h.un(c, i + 1, i)
         if n >= 2:
-            ops.append(["u", 0, 0, n - 1])
-    for _ in range(rng.range(1, 5)):
-        v = rng.below(n)
-        ops.append(rng.choice([["p", 0, v], ["s", 0, v], ["k", 0, v, rng.below(n)]]))
-    return {"n": n, "ops": ops, "fam": "chain"}
+            h.un(c, 0, n - 1)
 
 
-def generate(rng, tier):
+TAILS = 7
+
+
+def tail(rng, h, mode, rebuild):
+    """what happens to an adversarially built forest (copy 0) afterwards"""
+    n = h.len(0)
+    if mode == 0:                                   # a few calls on random elements
+        lookups(rng, h, 0, rng.range(1, 5), deep=False)
+    elif mode == 1:                                 # the deepest elements first, by every kind of call
+        lookups(rng, h, 0, rng.range(3, 8))
+    elif mode == 2:                                 # clone, then the deepest element on the clone and on the original
+        c = h.clone(0)
+        lookups(rng, h, c, rng.range(1, 4))
+        lookups(rng, h, 0, rng.range(1, 4))
+        lookups(rng, h, c, 1)
+    elif mode == 3:                                 # reset (same / smaller / larger) and a second build
+        m = rng.choice([n, n, max(0, n - rng.range(1, 3)), min(65, n + rng.range(1, 3)), n // 2])
+        h.reset(0, m)
+        rebuild(h)
+        lookups(rng, h, 0, rng.range(2, 5))
+    elif mode == 4:                                 # a copy through clone_from over a value of another length / history
+        lookups(rng, h, 0, 1)
+        d = h.clone(0)
+        h.reset(d, rng.choice([0, 1, n // 2, n + 3]))
+        lookups(rng, h, d, 2, deep=False)
+        c = h.clone_from(0, d, rng.choice([0, 0, 1, 2, n // 2 + 1, n + 5]))
+        lookups(rng, h, c, rng.range(1, 4))
+        lookups(rng, h, 0, 1)
+    elif mode == 5:                                 # a panicking call whose first argument is the deepest element
+        for _ in range(rng.range(1, 3)):
+            if n == 0:
+                break
+            v = h.deepest(rng, 0)
+            bad = rng.choice(bad_values(rng, n, v))
+            panic_call(rng, h, 0, rng.choice(["u", "k"]), rng.choice([2, 2, 3, 0, 1]), bad, v)
+            lookups(rng, h, 0, rng.range(1, 3))
+    else:                                           # many copies, each looked at
+        cs = [0]
+        for _ in range(rng.range(4, 7)):
+            cs.append(h.clone(rng.choice(cs)))
+            lookups(rng, h, rng.choice(cs), 1)
+        for c in cs:
+            lookups(rng, h, c, 1)
+
+
+def gen_binomial(rng, n, rev, mode=None):
+    h = Hist(n, "binomial")
+    build_binomial(rng, h, 0, rev, rng.chance(1, 2))
+    tail(rng, h, rng.below(TAILS) if mode is None else mode,
+         lambda hh: build_binomial(rng, hh, 0, not rev, rng.chance(1, 2)))
+    return h.case()
+
+
+def gen_chain(rng, n, style, mode=None):
+    h = Hist(n, "chain")
+    build_chain(rng, h, 0, style)
+    tail(rng, h, rng.below(TAILS) if mode is None else mode, lambda hh: build_chain(rng, hh, 0, (style + 1) % 4))
+    return h.case()
+
+
+def gen_random(rng, n, nops, panics=0, maxn=24, maxcopies=4):
+    """random calls on random live copies; `panics` = per-mille chance of an out-of-range call at every step"""
+    h = Hist(n, "random")
+    for i in range(nops):
+        c = rng.below(len(h.cp))
+        m = h.len(c)
+        k = rng.below(100)
+        if panics and rng.below(1000) < panics:
+            good = rng.below(m) if m else 0
+            bad = rng.choice([m + rng.below(3), m + rng.below(3), rng.choice(bad_values(rng, m, good))])
+            panic_call(rng, h, c, rng.choice(ELEM_OPS), rng.below(4), bad, good)
+            continue
+        if m == 0:
+            if k < 50:
+                h.reset(c, rng.range(0, 8))
+            elif len(h.cp) < maxcopies:
+                if k < 75:
+                    h.clone(c)
+                else:
+                    h.clone_from(c, rng.below(len(h.cp)), rng.below(4))
+            continue
+        if k < 46:
+            h.un(c, rng.below(m), rng.below(m))
+        elif k < 60:
+            h.check(c, rng.below(m), rng.below(m))
+        elif k < 70:
+            h.par(c, rng.below(m))
+        elif k < 76:
+            lookups(rng, h, c, 1)
+        elif k < 86:
+            h.size(c, rng.below(m))
+        elif k < 92:
+            h.reset(c, rng.choice([rng.range(0, maxn), max(0, m - rng.range(1, 3)), min(maxn, m + rng.range(1, 3)), m]))
+        elif len(h.cp) < maxcopies:
+            if k < 96:
+                h.clone(c)
+            else:
+                h.clone_from(c, rng.below(len(h.cp)), rng.choice([0, 0, 1, 2, m // 2 + 1, m + 3]))
+        else:
+            h.un(c, rng.below(m), rng.below(m))
+    return h.case()
+
+
+def gen_panic_shapes(rng, ctx, kind, nvals=None):
+    """every out-of-range value and argument shape for one kind of call, on a copy prepared in one of four ways;
+    in-range lookups in between show that the value is still intact"""
+    h = Hist({0: 9, 1: 12, 2: 8, 3: 8, 4: 0, 5: 1}[ctx], "panic-shapes")
+    c = 0
+    if ctx == 0:            # freshly built, a few unions
+        for _ in range(6):
+            h.un(0, rng.below(9), rng.below(9))
+    elif ctx == 1:          # after a shrinking reset: the buffers are longer than the value
+        for _ in range(8):
+            h.un(0, rng.below(12), rng.below(12))
+        h.reset(0, 5)
+        h.un(0, 0, 1)
+        h.un(0, 2, 3)
+        h.un(0, 1, 3)
+    elif ctx == 2:          # a clone of a deep forest (binomial tree of 8)
+        build_binomial(rng, h, 0, False, False)
+        c = h.clone(0)
+    elif ctx == 3:          # a deep forest, never compressed: the first find of un / check has something to compress
+        build_binomial(rng, h, 0, True, False)
+    m = h.len(c)
+    vals = bad_values(rng, m, m - 1 if m else 0)
+    if nvals is not None and len(vals) > nvals:
+        rng.shuffle(vals)
+        vals = vals[:nvals]
+    shape = rng.below(4)
+    for bad in vals:
+        reps = 1 if OPS[kind] == 1 else 2
+        for _ in range(reps):
+            good = h.deepest(rng, c) if (m and rng.chance(1, 2)) else rng.below(m)
+            panic_call(rng, h, c, kind, shape, bad, good)
+            shape = (shape + 1) % 4
+        if rng.chance(1, 3):
+            lookups(rng, h, c, 1, deep=rng.chance(1, 2))
+    lookups(rng, h, c, 2)
+    return h.case()
+
+
+def gen_many_resets(rng, nres):
+    """one copy reset again and again (anything that counts resets or calls in a narrow integer gets past 255)"""
+    h = Hist(3, "many-resets")
+    for i in range(nres):
+        m = rng.choice([rng.range(0, 6), rng.range(0, 6), h.len(0)])
+        h.reset(0, m)
+        if m and rng.chance(2, 3):
+            for _ in range(rng.range(1, 3)):
+                h.un(0, rng.below(m), rng.below(m))
+            if rng.chance(1, 2):
+                lookups(rng, h, 0, 1)
+    lookups(rng, h, 0, 3)
+    return h.case()
+
+
+def fixed_cases(rng):
     cases = []
     # the repository's own scenario
     cases.append({"n": 4, "fam": "unit-test", "ops": [["u", 0, 0, 1], ["u", 0, 2, 3], ["k", 0, 0, 2], ["u", 0, 1, 3],
@@ -279,24 +553,81 @@ def generate(rng, tier):
     cases.append({"n": 0, "fam": "random", "ops": []})
     cases.append({"n": 0, "fam": "random", "ops": [["p", 0, 0]]})
     cases.append({"n": 1, "fam": "random", "ops": [["u", 0, 0, 0], ["s", 0, 0], ["c", 0], ["r", 1, 3], ["u", 1, 2, 0], ["k", 0, 0, 0]]})
+    # an empty value that grows; copies of an empty value
+    cases.append({"n": 0, "fam": "random", "ops": [["r", 0, 3], ["u", 0, 0, 2], ["s", 0, 0], ["c", 0], ["r", 0, 0], ["c", 0],
+                                                    ["f", 1, 2, 0], ["f", 2, 1, 0], ["s", 3, 2], ["r", 4, 2], ["u", 4, 1, 0]]})
+    # minimal out-of-range calls: both arguments bad and equal, far out, values that alias after a narrowing cast,
+    # and the value a panicking un / check leaves behind (first path compressed), looked at afterwards
+    M = U64 - 1
+    for n, ops in [
+        (0, [["u", 0, 0, 0]]), (0, [["k", 0, 0, 0]]), (0, [["s", 0, 0]]),
+        (3, [["u", 0, 3, 3]]), (3, [["k", 0, 8, 8]]), (3, [["u", 0, 3, 4]]), (3, [["k", 0, 1, 3]]), (3, [["u", 0, 3, 1]]),
+        (3, [["p", 0, M]]), (3, [["s", 0, M]]), (3, [["u", 0, M, M]]), (3, [["k", 0, M, M]]), (3, [["u", 0, 0, M]]),
+        (3, [["s", 0, (1 << 32) + 1]]), (3, [["u", 0, 1, (1 << 32) + 1]]), (3, [["k", 0, (1 << 16) + 2, 2]]),
+        (3, [["p", 0, (1 << 63) + 2]]), (3, [["p", 0, 256 + 1]]),
+        (4, [["u", 0, 0, 1], ["u", 0, 2, 3], ["u", 0, 1, 3], ["u", 0, 0, 4], ["k", 0, 0, 3], ["s", 0, 2]]),
+        (4, [["u", 0, 0, 1], ["u", 0, 2, 3], ["u", 0, 1, 3], ["k", 0, 0, 9], ["p", 0, 0], ["u", 0, 4, 4], ["s", 0, 0]]),
+        (4, [["u", 0, 0, 1], ["u", 0, 2, 3], ["u", 0, 1, 3], ["c", 0], ["u", 1, 0, M], ["k", 0, 0, 2], ["k", 1, 0, 2]]),
+        (6, [["u", 0, 0, 1], ["r", 0, 2], ["p", 0, 2], ["s", 0, 5], ["u", 0, 1, 6], ["u", 0, 2, 2], ["u", 0, 0, 1]]),
+    ]:
+        cases.append({"n": n, "fam": "panic-shapes", "ops": ops})
+    for ctx in range(6):
+        for kind in ELEM_OPS:
+            cases.append(gen_panic_shapes(rng, ctx, kind))
+    # clone_from over values of another length and history
+    cases.append({"n": 5, "fam": "clone-from", "ops": [
+        ["u", 0, 0, 1], ["u", 0, 2, 3], ["u", 0, 1, 3], ["c", 0], ["r", 1, 9], ["u", 1, 7, 8], ["f", 0, 1, 0], ["f", 1, 0, 0],
+        ["f", 0, 1, 3], ["f", 1, 0, 13], ["f", 2, 2, 1], ["s", 2, 0], ["s", 3, 8], ["k", 4, 0, 3], ["u", 5, 8, 0], ["p", 6, 1]]})
+    # adversarial orders on every small size and around 32 / 64, every continuation
     sizes = [2, 3, 4, 5, 7, 8, 9, 15, 16, 17, 24]
+    k = 0
     for n in sizes:
-        cases.append(gen_binomial(rng, n, False))
-        cases.append(gen_binomial(rng, n, True))
+        cases.append(gen_binomial(rng, n, False, k % TAILS))
+        cases.append(gen_binomial(rng, n, True, (k + 3) % TAILS))
         for st in range(4):
-            cases.append(gen_chain(rng, n, st))
-    nrand = 800 if tier == "quick" else 12000
+            cases.append(gen_chain(rng, n, st, (k + st) % TAILS))
+        k += 1
+    for n in [31, 32, 33]:
+        cases.append(gen_binomial(rng, n, False, 1))
+        cases.append(gen_binomial(rng, n, True, [2, 3, 4, 5, 6, 1][k % 6]))
+        cases.append(gen_chain(rng, n, k % 4, 1 + k % 5))
+        k += 1
+    for n, rev, mode in [(63, False, 1), (64, True, 2), (65, False, 5)]:
+        cases.append(gen_binomial(rng, n, rev, mode))
+    cases.append(gen_chain(rng, 64, 3, 1))
+    cases.append(gen_many_resets(rng, 300))
+    return cases
+
+
+def generate(rng, tier):
+    cases = fixed_cases(rng)
+    quick = tier == "quick"
+    if not quick:
+        for n in [31, 32, 33, 63, 64, 65]:
+            for mode in range(TAILS):
+                cases.append(gen_binomial(rng, n, mode % 2 == 0, mode))
+                cases.append(gen_chain(rng, n, mode % 4, mode))
+        for _ in range(8):
+            cases.append(gen_many_resets(rng, rng.range(260, 400)))
+    nrand = 440 if quick else 12000
+    top = 48 if quick else 65
     for i in range(nrand):
-        k = rng.below(20)
-        if k == 0:
-            cases.append(gen_binomial(rng, rng.range(2, 24), rng.chance(1, 2)))
-        elif k == 1:
-            cases.append(gen_chain(rng, rng.range(2, 24), rng.below(4)))
+        k = rng.below(40)
+        big = rng.chance(1, 110 if quick else 12)          # beyond 24 elements
+        if k <= 1:
+            cases.append(gen_binomial(rng, rng.range(25, top) if big else rng.range(2, 24), rng.chance(1, 2)))
+        elif k <= 3:
+            cases.append(gen_chain(rng, rng.range(25, top) if big else rng.range(2, 24), rng.below(4)))
+        elif k == 4:
+            cases.append(gen_panic_shapes(rng, rng.below(6), rng.choice(ELEM_OPS), nvals=rng.range(2, 8)))
         else:
-            n = rng.choice([rng.range(1, 6), rng.range(1, 12), rng.range(1, 24), rng.range(8, 24)])
+            n = rng.choice([rng.range(0, 6), rng.range(1, 12), rng.range(1, 24), rng.range(8, 24)])
             nops = rng.choice([rng.range(0, 10), rng.range(5, 40), rng.range(20, 70)])
-            panic_at = rng.below(nops + 1) if rng.chance(1, 40) else None
-            cases.append(gen_random(rng, n, nops, panic_at))
+            maxn = 24
+            if big:
+                n, nops, maxn = rng.range(25, top), rng.range(40, 160), top
+            panics = rng.choice([15, 40, 120]) if rng.chance(1, 8) else 0
+            cases.append(gen_random(rng, n, nops, panics, maxn, 7 if rng.chance(1, 10) else 4))
     return cases
 
 
@@ -304,9 +635,9 @@ def well_formed(c):
     """every op refers to an existing copy (clones are counted); out-of-range element indices are allowed"""
     copies = 1
     for o in c["ops"]:
-        if o[1] >= copies:
+        if o[1] >= copies or (o[0] == "f" and o[2] >= copies):
             return False
-        if o[0] == "c":
+        if o[0] in ("c", "f"):
             copies += 1
     return True
 
@@ -318,48 +649,72 @@ def shrink(c):
     for cut in (len(ops) // 2, len(ops) - 1):
         if 0 <= cut < len(ops):
             out.append(dict(c, ops=ops[:cut]))
+    # long histories: drop a half / quarter / eighth somewhere
+    if len(ops) >= 16:
+        for parts in (2, 4, 8):
+            size = len(ops) // parts
+            for st in range(0, len(ops) - size + 1, size):
+                cand = dict(c, ops=ops[:st] + ops[st + size:])
+                if well_formed(cand):
+                    out.append(cand)
     for i in range(len(ops)):
         cand = dict(c, ops=ops[:i] + ops[i + 1:])
         if well_formed(cand):
             out.append(cand)
-    # fewer elements
-    mx = max([x for o in ops for x in (o[2:] if o[0] != "r" else [])] + [0])
+    # a clone_from as a plain clone, or over an untouched scratch value
+    for i, o in enumerate(ops):
+        if o[0] == "f":
+            out.append(dict(c, ops=ops[:i] + [["c", o[1]]] + ops[i + 1:]))
+            if o[3]:
+                out.append(dict(c, ops=ops[:i] + [["f", o[1], o[2], 0]] + ops[i + 1:]))
+    # fewer elements (only when no index is out of range on purpose)
+    mx = max([x for o in ops if o[0] in ELEM_OPS for x in o[2:]] + [o[2] - 1 for o in ops if o[0] == "r"] + [0])
     if c["n"] > mx + 1:
         out.append(dict(c, n=mx + 1))
     return out
 
 
 # ----------------------------------------------------------------------------- implementation-only search
-BIG_QUICK = [("binomial", 1 << 14), ("binomial_rev", 1 << 12), ("chain_up", 50000), ("chain_down", 50000),
-             ("chain_root", 50000), ("random", 4000), ("random", 60000), ("random_roots", 30000)]
+BIG_QUICK = [("binomial", 1 << 14), ("binomial_rev", 1 << 12), ("binomial", 1 << 17), ("chain_up", 50000),
+             ("chain_down", 50000), ("chain_root", 65537), ("random", 4000), ("random", 70000), ("random_roots", 30000),
+             ("binomial_reset", 1 << 11), ("binomial_reset", 3000), ("resets", 70000)]
 BIG_THOROUGH = [("binomial", 1 << 20), ("binomial_rev", 1 << 20), ("binomial", 1000000), ("chain_up", 1000000),
                 ("chain_down", 1000000), ("chain_root", 1000000), ("random", 4096), ("random", 1000000),
-                ("random_roots", 1000000), ("random_roots", 65536)]
+                ("random_roots", 1000000), ("random_roots", 65536), ("random_roots", 65537), ("binomial", 65537),
+                ("binomial_reset", 1 << 17), ("binomial_reset", 200000), ("resets", 300000)]
 
 
 def extra(ctx, known):
-    fams = BIG_QUICK if ctx.tier == "quick" else BIG_THOROUGH
-    binp = ctx.bins["debug"]
+    # the code under the model was edited: the quick tier runs the thorough list too
+    fams = BIG_QUICK if (ctx.tier == "quick" and not getattr(ctx, "src_changed", None)) else BIG_QUICK + BIG_THOROUGH
     cov = {"big_runs": []}
     viol = []
     for k, (fam, n) in enumerate(fams):
         line = "big %s %d %d" % (fam, n, ctx.seed * 1000 + k)
-        try:
-            pr = subprocess.run([binp], input=line + "\n", stdout=subprocess.PIPE, stderr=subprocess.PIPE, text=True, timeout=1800)
-            out = pr.stdout.strip()
-            rc = pr.returncode
-        except subprocess.TimeoutExpired:
-            out, rc = "timeout", -1
-        t = out.split()
-        ok = rc == 0 and len(t) == 5 and t[0] == "B" and t[4] == "1" and int(t[1]) <= int(t[2])
-        cov["big_runs"].append({"input": line, "output": out if rc == 0 else "executor died rc=%s (stack overflow?) %s" % (rc, out)})
-        if not ok:
-            viol.append({"name": "big-%s-%d" % (fam, n), "kind": "counterexample",
-                         "payload": {"what": "implementation-only search: after the union order `%s` on %d elements the forest "
-                                             "read through verif_raw violates depth <= log2(size) or root size = class "
-                                             "cardinality (output: B maxdepth maxallowed classes ok), or the executor died"
-                                             % (fam, n),
-                                     "executor_input": line, "executor_output": out, "returncode": rc}})
+        for profile in PROFILES:
+            binp = ctx.bins[profile]
+            try:
+                pr = subprocess.run([binp], input=line + "\n", stdout=subprocess.PIPE, stderr=subprocess.PIPE, text=True, timeout=1800)
+                out = pr.stdout.strip()
+                rc = pr.returncode
+            except subprocess.TimeoutExpired:
+                out, rc = "timeout", -1
+            t = out.split()
+            ok = rc == 0 and len(t) == 5 and t[0] == "B" and t[4] == "1" and int(t[1]) <= int(t[2])
+            cov["big_runs"].append({"input": line, "profile": profile,
+                                    "output": out if rc == 0 else "executor died rc=%s (stack overflow?) %s" % (rc, out)})
+            if not ok:
+                viol.append({"name": "big-%s-%d-%s" % (fam, n, profile), "kind": "counterexample",
+                             "payload": {"what": "implementation-only search (%s build): during / after the scenario `%s` on %d "
+                                                 "elements the forest read through verif_raw violates depth <= log2(size) or "
+                                                 "root size = class cardinality, or a return value of un / par / check / size "
+                                                 "differs from a naive labelling, or a lookup of a deepest element did not "
+                                                 "return the root / did not compress its path to the root, or reset / clone / "
+                                                 "clone_from produced different arrays (output: B maxdepth maxallowed classes "
+                                                 "ok), or the executor died (lookups run on a 256 KiB stack)" % (profile, fam, n),
+                                         "executor_input": line, "profile": profile, "executor_output": out, "returncode": rc}})
+                break
+        if viol:
             break
     return {"coverage": cov, "violations": viol}
 
@@ -374,15 +729,24 @@ MANIFEST = {
             "un returns true <=> the arguments were in different classes; size = class cardinality; par returns a class "
             "member, equal exactly on connected elements and unchanged by lookups; every parent chain has length <= "
             "log2(class size) and the recursion needs at most log2(class size)+1 frames (c05_depth_log, c05_stack_depth). "
-            "The model is tied to the code on every run: the executor replays generated histories (several copies, resets, "
-            "clones, adversarial orders) on the crate and Coq proves case by case that return values and the hooked (p, sz) "
-            "arrays equal the model's (batch_model) and satisfy a model-independent specification (batch_spec: naive "
-            "partition replay, forest shape, depth <= log2 class size); c05_model_check_implies_spec_check proves that the "
-            "first implies the second. An implementation-only search drives binomial-tree, chain and random union orders "
-            "up to 10^6 elements and checks depth and root sizes through the hook.",
-    "level_note": "Trusted: Coq kernel + vm_compute; the Rust executor, the verif_raw hook and the Python case printer; Vec as "
-                  "list, usize as nat (sizes never exceed the element count); a panic ends a history; theorems are about "
-                  "the model, the correspondence is sampled (histories on <= 24 elements); the 10^6-element runs are an "
-                  "implementation-only search, not a proof; process stack size is not modelled (the claim is the frame count).",
+            "The model is tied to the code on every run: the executor replays generated histories (up to 65 elements and 7 "
+            "copies, resets, clones, clone_from, adversarial orders followed by lookups of the deepest elements, "
+            "out-of-range calls of every argument shape up to 2^64-1 after which the history goes on with the value the "
+            "panicking call left behind) on the crate, debug and release build, and Coq proves case by case that return "
+            "values, panics and the hooked (p, sz) arrays equal the model's (batch_model) and satisfy a model-independent "
+            "specification (batch_spec: naive partition replay, forest shape, depth <= log2 class size, a call panics "
+            "iff an index is out of range and leaves a forest of the same partition); "
+            "c05_model_check_implies_spec_check proves that the first implies the second. The executor also compares the "
+            "Debug renderings after reset with new(n) and of clone / clone_from results with their source (hidden state). "
+            "An implementation-only search (both builds) drives binomial-tree, chain and random union orders up to 10^6 "
+            "elements (sizes around 2^16 and 2^17 in the quick tier), reset + second build, clones, 70000-300000 resets, and "
+            "checks depth, root sizes, return values of un / par / check / size against a naive labelling, and that "
+            "lookups of the deepest elements (on a 256 KiB stack) return the root and compress the whole path.",
+    "level_note": "Trusted: Coq kernel + vm_compute; the Rust executor, the verif_raw hook and the Python case printer (which "
+                  "clamps out-of-range indices to 4095 in the Coq term); Vec as list, usize as nat (sizes never exceed the "
+                  "element count); the value left by a panicking call is modelled as 'first find done' (panic_state); "
+                  "theorems are about the model, the correspondence is sampled (histories on <= 65 elements); the "
+                  "10^6-element runs are an implementation-only search, not a proof; process stack size is not modelled "
+                  "(the claim is the frame count).",
     "technique": "Coq proof over Gallina model + vm_compute correspondence batches against the Rust crate",
 }
